@@ -134,6 +134,8 @@ def compare(kind, cls, s, queries, r1, r2, axi=False):
                 continue
             want = x * s ** ex[ci]
             ref = max(abs(want), scale_a * abs(s ** ex[ci]) * 1e-6)
+            if not (math.isfinite(x) and math.isfinite(y)):
+                return "query %r component %d is not finite: %r in unit 1, %r in unit 2" % (q[:1] + q[2:], ci, x, y)
             if abs(y - want) > 3e-5 * ref:
                 return ("query %r component %d: %.12g in unit 1, %.12g in unit 2; expected factor s^%d = %.6g (s=%.6g)"
                         % (q[:1] + q[2:], ci, x, y, ex[ci], s ** ex[ci], s))
@@ -171,6 +173,8 @@ def pair_oracle(p, u1, u2, out, queries):
         # x*cf/cf is not the identity in binary64: allow a few ulps
         if not (vlib.close(a[0], b[0], 8, 1e-300) and vlib.close(a[1], b[1], 8, 1e-300)):
             return "node %d reported at %r in %s and %r in %s: coordinates are not in the declared unit" % (i, a[:2], u1, b[:2], u2)
+        if not (math.isfinite(a[2]) and math.isfinite(b[2])):
+            return "nodal potential %d is not finite: %r (%s), %r (%s)" % (i, a[2], u1, b[2], u2)
         if abs(b[2] - a[2] * s ** k) > 3e-5 * vmax * s ** k:
             return "nodal potential %d: %.12g (%s) vs %.12g (%s), expected factor s^%d" % (i, a[2], u1, b[2], u2, k)
     return compare(kind, cls, s, queries, r1, r2, axi)
@@ -202,8 +206,40 @@ def correspond(ctx):
             ctx.fail("unit scaling: " + msg, problem=p, units=[u1, u2])
         if len(samples) < 3:
             samples.append(dict(features=p["features"], units=[u1, u2], nodes=len(out[0][1])))
+    # mixed-excitation axisymmetric magnetics (coils, bars, magnets, iron bounded by arcs: meshes with very small
+    # elements) declared in a coarse and in a fine unit: same mesh, every potential finite, and -- all sources being
+    # currents / magnetisations given per area or as totals -- B-independent quantities aside, A = flux/(2 pi r) must
+    # at least stay finite and the run must terminate (absolute tolerances in internal units break this)
+    from props import c17_gen
+    nmix = 3 if ctx.quick() else 12
+    for k in range(nmix):
+        p = c17_gen.gen_mag_problem(rng, axi=True, bh=False)
+        p["features"] = ["fem", "mixed", "axi"]
+        res = {}
+        for u in ("millimeters", "microns"):
+            q = copy.deepcopy(p); q["units"] = u
+            wd = os.path.join(ctx.work, "mix%d%s" % (k, u[:2])); os.makedirs(wd, exist_ok=True)
+            r, err = femmrun.run(ctx, q, [("nodes",)], "prob", workdir=wd, timeout=240)
+            if err:
+                ctx.fail("unit scaling: a problem that solves in millimeters fails in %s: %s" % (u, err[-300:]) if u != "millimeters"
+                         else "run failed on a well-formed problem: " + err[-300:], problem=p, units=[u])
+                res = None; break
+            nodes, elems = femmrun.read_solution("fem", os.path.join(wd, "prob"))
+            res[u] = (nodes, elems)
+        feats["fem-mixed-axi"] = feats.get("fem-mixed-axi", 0) + 1
+        if not res:
+            continue
+        n += 1
+        (n1, e1), (n2, e2) = res["millimeters"], res["microns"]
+        if e1 != e2 or len(n1) != len(n2):
+            ctx.fail("unit scaling: the mesh is not identical in millimeters and microns", problem=p, units=["millimeters", "microns"])
+            continue
+        bad = [i for i, a in enumerate(n2) if not math.isfinite(a[2])]
+        if bad and all(math.isfinite(a[2]) for a in n1):
+            ctx.fail("unit scaling: %d of %d nodal potentials are not finite when the drawing is declared in microns "
+                     "(all finite in millimeters)" % (len(bad), len(n2)), problem=p, units=["millimeters", "microns"])
     cov = ctx.res.cov
-    cov["evaluations"] = len(plan)
+    cov["evaluations"] = len(plan) + nmix
     cov["distinct_nontrivial"] = n
     cov["rule"] = ("single-excitation problems (fixed potentials / volume source / surface source / circuit current) of the three "
                    "physics, planar and axisymmetric, each declared in two randomly chosen units with the same numbers: meshes "
